@@ -304,6 +304,11 @@ func (fs *ReaderFS) Open(name string) (hackpadfs.File, error) {
 		return nil, &hackpadfs.PathError{Op: "open", Path: name, Err: hackpadfs.ErrInvalid}
 	}
 	fs.ps.Wait(name)
+	if !fs.ps.Visited(name) {
+		// Not announced as completely written. Either it is a directory or missing, the tar read has ended, or the caller
+		// canceled: wait until the reader has stopped, so a half-written file is never served and the error is not missed.
+		<-fs.Done()
+	}
 	verifPoint("open:after-wait")
 	if unarchiveErr := fs.UnarchiveErr(); unarchiveErr != nil {
 		return nil, &hackpadfs.PathError{Op: "open", Path: name, Err: unarchiveErr}
